@@ -1351,6 +1351,15 @@ func oracleC13(x *exec, v *viols, pre, post *snap, rp *reply) {
 				v.add("live-container-lost-allocation", "live-container-lost-allocation:"+label, "after accepted configuration %q live container %s holds no allocation", label, c.id())
 			}
 		}
+		if tc := x.taConfig(); post.TA != nil && tc != nil && !tc.Spec.Config.PinMemory {
+			// the configuration in force does not pin memory: what the policy records for a container admitted earlier must be
+			// what it records for one admitted now - no memory nodes
+			for _, c := range x.liveCtrs() {
+				if cc, ok := post.Cache[c.id()]; ok && cc.Res.Mems != "" && !c.memPreserved() {
+					v.add("memory-pinned-while-pinning-is-off", "after-accepted-config/memory-pinned-while-pinning-is-off", "after accepted configuration %q (pinMemory: false) container %s is still recorded with memory nodes %q", label, c.id(), cc.Res.Mems)
+				}
+			}
+		}
 		sub := &viols{prop: "C13", scn: v.scn, trace: v.trace}
 		if post.TA != nil {
 			oracleC01(x, sub, pre, post, rp)
